@@ -68,6 +68,12 @@ CHECKS = {
         "Streams identified by value tuples; three known findings (O<n> name extending a label, label on a non-leaf user node, ambiguous suffix) excluded by input-only predicates.",
         "DESIGN.md section 5 C10",
     ),
+    "C11": (
+        "Hypothesis RuleBasedStateMachine over call histories; oracle = one-shot forked pristine process per call, input snapshots, module-state fingerprint",
+        "Stateful search (240 histories x <=6 calls quick / 5k x <=10 thorough): service calls with dicts, reused and fresh models, PinchProblem load / target / target-again / export over a pool of different problems; after every call the result dump must equal that of a process that ran only this call, the caller's input must be unchanged, earlier results unchanged and the OpenPinch.* module fingerprint (globals, class attributes, function defaults) identical. A sample of problems is also run in genuinely fresh interpreters to validate the fork proxy.",
+        "Fork proxy assumption (validated on 4 / 48 fresh interpreters per run); state outside OpenPinch.* is not fingerprinted.",
+        "DESIGN.md section 5 C11",
+    ),
     "C12": (
         "Hypothesis @given problem x transformation; metamorphic relations between the two service results",
         "Generated-input search (1.2k quick / 30k thorough pairs): permutation, split at an interior temperature, parallel branches, translation, duty scaling, zone renaming and temperature-axis mirroring; Qh, Qc, Qr, every utility duty by name, pinch temperatures (shifted / negated-and-swapped) for DI, Total-Process and Total-Site records, and the composite / grand composite graph curves where the transformation leaves them unchanged.",
